@@ -1,8 +1,8 @@
 package gen
 
 import (
-	"math"
 	"fmt"
+	"math"
 	"strconv"
 	"strings"
 
